@@ -1,0 +1,9 @@
+//go:build verif && verifenc
+
+package pdf417
+
+// VerifHighLevel exposes the codewords produced by the high-level encoder
+// (text / byte / numeric compaction) to the conformance harness.
+func VerifHighLevel(data string) ([]int, error) {
+	return highlevelEncode(data)
+}
